@@ -128,6 +128,10 @@ func run() int {
 			if i < len(args) {
 				runRe = args[i]
 			}
+		case "--fuzz-only":
+			// development aid: skip the shard phase (run no test) and only fuzz
+			runRe = "^$"
+			os.Setenv("VERIF_FUZZ", "1")
 		default:
 			return usage()
 		}
@@ -833,7 +837,7 @@ func merge(id string, sp spec, tier string, seed uint64, results []*shardResult,
 		}
 		return 2
 	}
-	if evals == 0 {
+	if evals == 0 && len(lines) == 0 {
 		fmt.Printf("INCONCLUSIVE property=%s no case was evaluated\n", id)
 		return 2
 	}
